@@ -119,6 +119,20 @@ def dag(draw, *, max_nodes=12, leaf_profile='plain', kinds=None, p_alias=0.55,
     elif kind == 'dict':
       keys = draw(st.lists(st.sampled_from(['a', 'b', 'k', 1, 2]), unique=True, max_size=3))
       node = {'k': 'dict', 'keys': keys, 'items': [ref() for _ in keys]}
+    elif kind == 'ltuple':
+      node = {'k': 'tuple', 'items': [{'leaf': draw(leaf_st)} for _ in range(draw(st.integers(1, 3)))]}
+    elif kind == 'ntuple':
+      lts = [j for j, nd in enumerate(nodes) if nd['k'] == 'tuple' and _internable_node(nodes, j)]
+      items = []
+      for _ in range(draw(st.integers(1, 3))):
+        if lts and draw(st.booleans()):
+          items.append(draw(st.sampled_from(lts)))
+        else:
+          items.append({'leaf': draw(leaf_st)})
+      node = {'k': 'tuple', 'items': items}
+    elif kind == 'mdict':
+      keys = draw(st.lists(st.sampled_from(['a', 1, 'b', 2, None]), unique=True, min_size=2, max_size=3))
+      node = {'k': 'dict', 'keys': keys, 'items': [ref() for _ in keys]}
     elif kind == 'ddict':
       keys = draw(st.lists(st.sampled_from(['a', 'b', 1]), unique=True, max_size=2))
       node = {'k': 'ddict', 'factory': draw(st.sampled_from(['list', 'int', 'make_list', None])),
@@ -137,6 +151,13 @@ def dag(draw, *, max_nodes=12, leaf_profile='plain', kinds=None, p_alias=0.55,
       raise ValueError(kind)
     nodes.append(node)
   return {'nodes': nodes, 'root': len(nodes) - 1}
+
+
+def _internable_node(nodes, j):
+  nd = nodes[j]
+  if nd['k'] != 'tuple':
+    return False
+  return all(isinstance(r, dict) or _internable_node(nodes, r) for r in nd['items'])
 
 
 def recipe_stats(recipe):
